@@ -150,10 +150,20 @@ Script(m) ==
               <<Fva(<<>>, "none", 1, 1, FALSE, 0), [op |-> "optimize", sense |-> "none", re |-> FALSE]>>
               \o (IF SignOK(m, o) THEN <<Fva(AllRxns(m), "obj", 0, 1, FALSE, 0)>> ELSE <<>>)
               \o (IF SignOK(m, o) /\ o # 0 /\ FracIsBound(m, 1, 2, o) THEN <<Fva(AllRxns(m), "id", 1, 2, FALSE, 0)>> ELSE <<>>)
+              \* the same call on the same model object reached through history: cycle reaction cr was taken out of
+              \* the model, a loopless FVA ran on the cycle-free network, the reaction object was added back
+              \* (the FIRST loopless call on the model object; the re-added reaction is at the end of model.reactions from
+              \* then on, so the driver names the reactions explicitly where the script says "all")
+              \o (IF AllFinite(m) /\ Cycles(m) # {}
+                  THEN <<Fva(AllRxns(m), "obj", 1, 1, TRUE, 0) @@
+                         [pre |-> "rebuilt", cr |-> SetMin({r \in RIdx(m) : \E z \in Cycles(m) : z[r] # 0})]>> ELSE <<>>)
               \o (IF AllFinite(m) /\ Cycles(m) # {} THEN <<Fva(<<>>, "none", 1, 1, TRUE, 0)>> ELSE <<>>)
               \o (IF AllFinite(m) THEN <<Fva(<<>>, "none", 1, 1, FALSE, 10)>> ELSE <<>>)
     [] Prop = "C19" ->
-         <<[op |-> "blocked", rl |-> <<>>, by |-> "none", open |-> FALSE],
+         \* (pre = "failed": a call with open_exchanges=True and an identifier that is no reaction of the model was
+         \* rejected (KeyError) just before -- a call that raises leaves the model as it found it)
+         <<[op |-> "blocked", rl |-> <<>>, by |-> "none", open |-> FALSE, pre |-> "failed"],
+           [op |-> "blocked", rl |-> <<>>, by |-> "none", open |-> FALSE],
            [op |-> "blocked", rl |-> AllRxns(m), by |-> "obj", open |-> TRUE],
            [op |-> "fastcc"]>>
          \* identifiers instead of objects: a pinned witness per instance of the larger topologies
